@@ -77,6 +77,22 @@ class Body:
         if k == "goto":
             return [t["to"]]
         if k == "switch":
+            kc = t["d"].get("k") if isinstance(t["d"], dict) else None
+            if kc is None:
+                # a temporary holding a literal (`_c = const false; switchInt(move _c)`)
+                pl = t["d"].get("m", t["d"].get("c"))
+                if isinstance(pl, int):
+                    ds = [s for bl in self.blocks for s in bl["st"] if s["s"] == "assign" and s["p"] == pl]
+                    calls = [bl for bl in self.blocks if bl["term"]["t"] == "call" and bl["term"]["dest"] == pl]
+                    if len(ds) == 1 and not calls and ds[0]["rv"]["r"] == "use" and "k" in ds[0]["rv"]["a"] and not ds[0].get("mb"):
+                        kc = ds[0]["rv"]["a"]["k"]
+            if kc is not None and "v" in kc:
+                # switch on a literal constant (`if false && ..`): only the matching edge is live
+                v = {"true": "1", "false": "0"}.get(kc["v"], kc["v"])
+                for val, tg in t["arms"]:
+                    if val == v:
+                        return [tg]
+                return [t["else"]]
             out = [a[1] for a in t["arms"]]
             out.append(t["else"])
             return list(dict.fromkeys(out))
